@@ -45,6 +45,8 @@ func (tc *TypeCtx) Type(t *Type) types.Type {
 			return types.I32
 		case 64:
 			return types.I64
+		case 128:
+			return types.I128
 		}
 		return types.NewInt(uint64(t.W))
 	case "fp":
@@ -78,7 +80,12 @@ func (tc *TypeCtx) Type(t *Type) types.Type {
 		if n, ok := tc.named[t.Nm]; ok {
 			return n
 		}
+		// the body is a fresh object made by the public type constructors, as the documentation of
+		// Module.NewTypeDef prescribes (never one of the predeclared types of the types package)
 		body := tc.Type(t.Body)
+		if t.Body.K == "int" {
+			body = types.NewInt(uint64(t.Body.W))
+		}
 		if tc.M != nil {
 			body = tc.M.NewTypeDef(t.Nm, body)
 		} else {
